@@ -151,6 +151,26 @@ CLAIMS.update({
    technique="Lean 4 proof (structural induction over conversations) + exhaustive short-conversation correspondence against a scripted plugin process"),
 })
 
+CLAIMS.update({
+ 'C09': dict(level='proof',
+   text="Lean theorems over a byte-level model of internal/bech32 (Encode/Decode, convertBits, polymod) and the four key-string parsers/printers (native and plugin recipients and identities), ∀ strings and ∀ 32-byte keys / valid names / payloads: "
+        "x25519_{recipient,identity}_roundtrip, plugin_{recipient,identity}_roundtrip, parse_canonical (whatever parses re-encodes to the very same string), unique_spelling, reject_non_ascii, reject_mixed_case, reject_wrong_prefix, reject_wrong_length, "
+        "accepted_padding / reject_nonzero_padding / reject_surplus_padding, convertBits_inverse, polymod_xor_linear, no_low_weight_codeword (no error pattern of weight ≤ 4 within 58 symbols has zero syndrome — kernel computation via GF(32)-linearity, "
+        "decide +kernel, no native_decide) and typo_rejected (a native key string with 1..4 characters replaced is never accepted). Tie: the real parsers/printers and bech32 through verifhook vs the model on random keys (incl. bit 255 set), "
+        "case/prefix/length/padding/confusable mutations, an independent Go bech32 assembler for valid-checksum-but-malformed strings; thorough: all 1.59M double substitutions of one recipient and one identity.",
+   note=COMMON_NOTE + "Byte-level model: exact given the whole-string ASCII check of fix: commit F4 (known_findings.json), before which strings.ToLower/ToUpper on non-ASCII input (Kelvin sign) made the parser accept a second spelling. "
+        "bech32 alone is not canonical for a letterless HRP (recorded as an example in Props/C09); every age prefix contains letters.",
+   technique="Lean 4 proof (bit-regrouping inverses, checksum linearity, kernel-evaluated code-distance table) + differential correspondence"),
+ 'C17': dict(level='proof',
+   text="Lean theorems: valid_name_charset (a name is accepted iff non-empty over [A-Za-z0-9+-._]), valid_name_no_separator, constructors_validate / constructors_no_separator (the three plugin constructors return a value only with a valid name), "
+        "bare_name_accepts, exec_path (the command is exactly \"age-plugin-\" ++ name, separator-free), exec_refuses_separator, cli_routes (a CLI plugin value arises only from age1…1…, AGE-PLUGIN-… or -j, always through a validating constructor), cli_native_not_plugin. "
+        "Tie/C17 (regenerated from /repo on every run by the go/ast+go/types extractor): exactly ONE process-creation site in the module (execabs.Command in plugin/client.go with path \"age-plugin-\"+name), called only by (*Recipient).WrapWithLabels and (*Identity).Unwrap; "
+        "client values are constructed only in the validating constructors and Identity.Recipient; age, agessh, armor and internal/* import neither os/exec, execabs, syscall nor plugin; the allow-list equals the specified byte set. "
+        "Correspondence: the constructors/parsers vs the model (exhaustive over names ≤ 3 bytes, thorough), and sentinel-PATH runs: Wrap/Unwrap, native decryption of headers with unknown stanza types, real CLI runs with -r/-R/-i/-j — only the PATH entry named age-plugin-<name> ever runs.",
+   note=COMMON_NOTE + "The PATH search itself (execabs / os/exec LookPath) is stdlib and modelled as 'look the file name up on PATH'; soundness of the extractor's call-site enumeration (syntactic: exec.Command*, os.StartProcess, syscall.Exec/ForkExec, exec.Cmd literals; reflection/cgo absent from the module) is trusted.",
+   technique="Lean 4 proof (decision logic over byte strings) + call-site facts regenerated from source + sentinel-PATH differential runs"),
+})
+
 def main():
     hook = subprocess.run(['git', '-C', '/repo', 'log', '--format=%h', '--grep=^verifhook', '-n', '5'], capture_output=True, text=True).stdout.split()
     m = {
